@@ -272,6 +272,9 @@ func hardTypeConflict(r *sandbox.Repo, sn *sandbox.Snap, target string) bool {
 	if err != nil {
 		return true
 	}
+	if HasConflict(snap) {
+		return true // the snapshot itself holds p and p/q: its files cannot all exist
+	}
 	for p := range snap {
 		if IsDirOnDisk(sn, p) {
 			return true
@@ -425,6 +428,11 @@ func runC08(c *core.Ctx) {
 				// perturb the working tree, then reset
 				for j := 0; j < k.R.IntN(4); j++ {
 					k.Do(pickS(k.R, []string{"edit-mod", "edit-rm", "edit-rmdir", "edit-new", "edit-new"}))
+				}
+				if w.Hist%3 == 1 && k.chance(40) {
+					// a directory (holding never-tracked files) where a tracked file belongs, or a file where a directory belongs
+					k.Swap = true
+					k.Do("edit-swap")
 				}
 				// also perturb the staging area so that it differs from HEAD's snapshot
 				for j := 0; j < k.R.IntN(3); j++ {
